@@ -5,7 +5,9 @@ import (
 	"net/http"
 	"net/url"
 	"regexp"
+	"sort"
 	"strings"
+	"sync"
 	"testing"
 )
 
@@ -201,6 +203,66 @@ func TestVerifC13(t *testing.T) {
 					lg = false
 				}
 				out = append(out, "Lg"+vfBool(lg))
+			}
+			io.emit("%s", strings.Join(out, " "))
+		case len(f) == 3 && f[0] == "burst":
+			// burst <url> <n>: the FIRST requests a freshly started daemon gets for every client, n of them at the
+			// same moment (barrier), each on a state whose clients were just built from what the operator wrote
+			// (plus patterns that can never match, which change no decision but give a lazy initialiser work to
+			// do). Output per client: the set of distinct verdicts the n callers saw.
+			s, ok := vfUnhex(f[1])
+			n := 0
+			fmt.Sscan(f[2], &n)
+			if !ok || n < 2 || n > 64 {
+				io.emit("bad-op")
+				continue
+			}
+			u, _ := url.Parse(s)
+			fresh := &RuntimeState{logger: state.logger}
+			fresh.Config = state.Config
+			fresh.Config.OpenIDConnectIDP.Client = nil
+			for _, name := range names {
+				pats := append([]string{}, written[name][1]...)
+				if len(pats) > 0 {
+					for k := 0; k < 24; k++ {
+						pats = append(pats, fmt.Sprintf("^https://never-%d\\.invalid/(a|b|c)*d{2,%d}(x?y?z?){3}$", k, k+3))
+					}
+				}
+				fresh.Config.OpenIDConnectIDP.Client = append(fresh.Config.OpenIDConnectIDP.Client,
+					OpenIDConnectClientConfig{ClientID: name, AllowedRedirectDomains: append([]string{}, written[name][0]...), AllowedRedirectURLRE: pats})
+			}
+			sets := make([]map[string]bool, len(names))
+			for i := range sets {
+				sets[i] = map[string]bool{}
+			}
+			var mu sync.Mutex
+			var wg sync.WaitGroup
+			gate := make(chan struct{})
+			for w := 0; w < n; w++ {
+				wg.Add(1)
+				go func(w int) {
+					defer wg.Done()
+					defer func() { recover() }()
+					<-gate
+					for k := range names {
+						i := (k + w) % len(names)
+						v := verdictOf(fresh, names[i], s, u)
+						mu.Lock()
+						sets[i][v] = true
+						mu.Unlock()
+					}
+				}(w)
+			}
+			close(gate)
+			wg.Wait()
+			var out []string
+			for i, name := range names {
+				var vs []string
+				for v := range sets[i] {
+					vs = append(vs, v)
+				}
+				sort.Strings(vs)
+				out = append(out, name+"="+strings.Join(vs, "|"))
 			}
 			io.emit("%s", strings.Join(out, " "))
 		case len(f) == 3 && (f[0] == "auth" || f[0] == "lauth"):
